@@ -296,11 +296,17 @@ def walk(forest, depth=0):
 
 # ---- part D: deploy parameters ---------------------------------------------------------------------
 class DRule:
-    def __init__(self, pattern, timeout=None, dialogs=(), children=()):
+    def __init__(self, pattern, timeout=None, dialogs=(), children=(), ifcontext=()):
         self.pattern, self.timeout, self.dialogs, self.children = pattern, timeout, list(dialogs), list(children)
+        self.ifcontext = list(ifcontext)    # %ifcontext=n:v,...: the rule is in force for a command whose context holds one of the pairs
+
+    def fits(self, context):
+        return not self.ifcontext or any(context.get(x.split(":")[0]) == x.split(":")[1] for x in self.ifcontext)
 
     def text(self, ind=0):
         s = "    " * ind + self.pattern + (" %%timeout=%d" % self.timeout if self.timeout else "")
+        if self.ifcontext:
+            s += " %ifcontext=" + ",".join(self.ifcontext)
         out = [s]
         for q, a in self.dialogs:
             out.append("    " * (ind + 1) + "dialog: %s ::: %s" % (q, a))
@@ -321,18 +327,29 @@ def deploy_grammar(tier):
         [DRule("quit", 7), DRule("b *", 8, (), [DRule("quit", 9)])],
         [DRule("~", 33)],
         [DRule("b *", 21, (), [DRule("~", 22)])],
+        # %ifcontext: one pair, several pairs (any of them suffices), on a block rule and on its child
+        [DRule("a", 10, ifcontext=("block:x",)), DRule("b *", 20)],
+        [DRule("a", 10, d1, ifcontext=("block:x", "block:y")), DRule("~", 33)],
+        [DRule("b *", 40, (), [DRule("a", 15, ifcontext=("mode:m", "block:y"))], ifcontext=("block:y", "mode:m")), DRule("a", 50)],
     ]
     return books
 
 
-def ref_deploy_rule(rules, path):
+DEPLOY_CONTEXTS = [{}, {"block": "x"}, {"block": "y"}, {"block": "y", "mode": "n"}, {"mode": "m", "block": "z"}]
+
+
+def uses_ifcontext(book):
+    return any(r.ifcontext or uses_ifcontext(r.children) for r in book)
+
+
+def ref_deploy_rule(rules, path, context=None):
     """The rule chain matching the block path: walking the path from the outermost block, a block row matched by a
     rule of the current level descends into that rule's children; a block row no rule mentions leaves the level
     unchanged (shipped deploy rulebooks rely on this: 'undo peer *' is written at top level and applies inside
     'bgp N'); the command itself must match a rule of the level reached."""
     level = rules
     for i, row in enumerate(path):
-        rule = next((r for r in level if rulelang.ref_match(r.pattern, row) is not None), None)
+        rule = next((r for r in level if rulelang.ref_match(r.pattern, row) is not None and r.fits(context or {})), None)
         if rule is not None:
             if i == len(path) - 1:
                 return rule
@@ -340,7 +357,7 @@ def ref_deploy_rule(rules, path):
     return None
 
 
-def check_deploy_params(book, forest, report, stats=None):
+def check_deploy_params(book, forest, report, stats=None, context=None):
     from annet import deploy
     from annet.rulebook.deploying import compile_deploying_text
     vendor = "huawei"
@@ -350,6 +367,11 @@ def check_deploy_params(book, forest, report, stats=None):
     fmt = env.formatter(vendor)
     paths = fmt.cmd_paths(build_patch(forest))
     case = {"part": "D", "deploy": text, "forest": forest}
+    if context:
+        # every command of the patch stands in this rulebook context (patching rules below a '%context=' line give it)
+        from collections import OrderedDict as _od
+        paths = _od((p_, dict(context)) for p_ in paths)
+        case["context"] = dict(context)
     try:
         with env.rulebook_override(lambda _hw, _real: {"deploying": compiled}):
             cl = list(deploy.apply_deploy_rulebook(hw, paths, do_finalize=False, do_commit=False))
@@ -362,7 +384,7 @@ def check_deploy_params(book, forest, report, stats=None):
         report({"kind": "body-length", "part": "D"}, case, "%r vs %r" % ([c.cmd for c in cl], list(paths)))
         return 0
     for cmd, path in zip(body, paths.keys()):
-        r = ref_deploy_rule(book, path)
+        r = ref_deploy_rule(book, path, context)
         exp_timeout = (r.timeout or 30) if r is not None else 30
         exp_q = [(q.strip("/") if q.startswith("/") else q, a, q.startswith("/")) for q, a in (r.dialogs if r else [])]
         got_q = [(q.question, q.answer, bool(q.is_regexp)) for q in (cmd.questions or [])]
@@ -926,12 +948,13 @@ def run_block(block, ctx):
         for f in fs:
             if ctx.expired():
                 return
-            hits = check_deploy_params(book, f, ctx.violation, ctx.extra)
-            ctx.evals += 1
-            ctx.states += 1
-            if hits:
-                ctx.nontrivial += 1
-            ctx.outcomes["D:matched=%s" % (hits if hits < 3 else "3+")] += 1
+            for dctx in (DEPLOY_CONTEXTS if uses_ifcontext(book) else [None]):
+                hits = check_deploy_params(book, f, ctx.violation, ctx.extra, dctx)
+                ctx.evals += 1
+                ctx.states += 1
+                if hits:
+                    ctx.nontrivial += 1
+                ctx.outcomes["D:matched=%s" % (hits if hits < 3 else "3+")] += 1
         ctx.sample({"part": "D", "deploy_rulebook": "\n".join(r.text() for r in book), "trees": len(fs)})
 
 
@@ -969,7 +992,7 @@ def replay(case):
     elif case["part"] == "D":
         for book in deploy_grammar("thorough"):
             if "\n".join(r.text() for r in book) == case["deploy"]:
-                check_deploy_params(book, _tuplify(case["forest"]), rep)
+                check_deploy_params(book, _tuplify(case["forest"]), rep, None, case.get("context"))
     else:
         from annet.rulebook.patching import compile_patching_text
         from annet import api
